@@ -39,23 +39,46 @@ theorem lookupByValue_good (c : Ctx) (hc : c.Inv) (tv : Bytes) : Good c (c.looku
           rw [hd] at h2
           simp only [Prod.mk.injEq, Option.some.injEq] at h2
           exact h2.2.1.symm
-        refine ⟨⟨dg.1.nodup, dg.1.wf, ?_, ?_, ?_, dg.1.defs⟩, fun u h => ⟨(dg.2.1 u h).1, (dg.2.1 u h).2⟩, fun t' e => by cases e; exact ht⟩
+        refine ⟨⟨dg.1.nodup, dg.1.wf, ?_, ?_, ?_, dg.1.defs, ?_, ?_⟩, fun u h => ⟨(dg.2.1 u h).1, (dg.2.1 u h).2⟩, fun t' e => by cases e; exact ht⟩
         · intro u hu
-          simp only [lookup_cons_bytes]
+          simp only [storeByValue, lookup_cons_bytes]
           by_cases e : encodeTV u = tv
           · rw [if_pos e, hcanon u (dg.1.wf u hu).1 e]
           · rw [if_neg e]; exact dg.1.total u hu
         · intro u u' wu' hlk
-          simp only [lookup_cons_bytes] at hlk
+          simp only [storeByValue, lookup_cons_bytes] at hlk
           by_cases e : encodeTV u' = tv
           · rw [if_pos e] at hlk
             rw [hcanon u' wu' e]; exact (Option.some.inj hlk).symm
           · rw [if_neg e] at hlk; exact dg.1.sound u u' wu' hlk
         · intro k u hlk
-          simp only [lookup_cons_bytes] at hlk
+          simp only [storeByValue, lookup_cons_bytes] at hlk
           by_cases e : k = tv
           · rw [if_pos e] at hlk; cases hlk; exact ht
           · rw [if_neg e] at hlk; exact dg.1.range k u hlk
+        · intro u b hlk
+          simp only [storeByValue] at hlk
+          split at hlk
+          · exact dg.1.tvcanon u b hlk
+          · rw [lookup_cons_ty] at hlk
+            by_cases e : u = t
+            · rw [if_pos e] at hlk; rw [e]; exact (Option.some.inj hlk).symm
+            · rw [if_neg e] at hlk; exact dg.1.tvcanon u b hlk
+        · intro k u hlk
+          simp only [storeByValue, lookup_cons_bytes] at hlk
+          simp only [storeByValue]
+          by_cases e : k = tv
+          · rw [if_pos e] at hlk; cases hlk
+            split
+            · assumption
+            · simp [lookup_cons_ty]
+          · rw [if_neg e] at hlk
+            have := dg.1.tvtotal k u hlk
+            split
+            · exact this
+            · rw [lookup_cons_ty]; by_cases e2 : u = t
+              · simp [e2]
+              · rw [if_neg e2]; exact this
 
 /-- `TranslateType` of a well-formed type of any context returns the structurally same type -/
 theorem translate_spec (c : Ctx) (hc : c.Inv) (ext : Ty) (w : ext.wf = true) :
@@ -73,6 +96,28 @@ theorem translate_spec (c : Ctx) (hc : c.Inv) (ext : Ty) (w : ext.wf = true) :
       rw [append_nil] at h2
       rw [h2]
   exact ⟨hres, g.1, g.2.1, g.2.2 ext hres⟩
+
+/-- the bytes `LookupTypeValue` returns for a well-formed type are its canonical serialization -/
+theorem lookupTypeValue_canonical (c : Ctx) (hc : c.Inv) (t : Ty) (w : t.wf = true) (b : Bytes)
+    (h : (c.lookupTypeValue t).1 = some b) : b = encodeTV t := by
+  unfold lookupTypeValue at h
+  cases hl : c.toValue.lookup t with
+  | some b' => simp only [hl] at h; cases h; exact hc.tvcanon t b hl
+  | none =>
+    simp only [hl] at h
+    have sp := translate_spec c hc t w
+    unfold translate at sp
+    cases hb : c.lookupByValue (encodeTV t) with
+    | mk o c' =>
+      rw [hb] at sp h
+      simp only at sp
+      cases o with
+      | none => simp at sp
+      | some t' =>
+        simp only at h
+        have e : t' = t := by simpa using sp.1
+        subst e
+        exact sp.2.1.tvcanon _ b h
 
 theorem lookupTypeValue_good (c : Ctx) (hc : c.Inv) (t : Ty) :
     (c.lookupTypeValue t).2.Inv ∧ ∀ u, c.has u → (c.lookupTypeValue t).2.has u := by
